@@ -1010,6 +1010,19 @@ func (g *textGen) mutate(t map[string]string, own func(string) bool, region int,
 			others = append(others, p)
 		}
 	}
+	// a file below an excluded directory and an eligible sibling whose name merely starts with that
+	// directory's name change in the same commit (the sibling must still be reported)
+	if g.r.Intn(4) == 0 {
+		for _, pair := range [][2]string{{"pkg/b/testdata/t.go", "pkg/b/testdata_loader.go"}, {"vendor/v/v.go", "vendorutil/u.go"}} {
+			c0, ok0 := t[pair[0]]
+			c1, ok1 := t[pair[1]]
+			if ok0 && ok1 && own(pair[0]) && own(pair[1]) {
+				t[pair[0]] = g.edit(c0, region)
+				t[pair[1]] = g.edit(c1, region)
+				count("edit:excluded+look-alike-sibling")
+			}
+		}
+	}
 	for k := 1 + g.r.Intn(3); k > 0; k-- {
 		op := g.r.Intn(100)
 		switch {
@@ -1079,6 +1092,8 @@ func buildHistory(dir string, r *rand.Rand, count func(string)) *histRepo {
 	tree["pkg/a/a_test.go"] = g.file(6)
 	tree["vendor/v/v.go"] = g.file(6)
 	tree["pkg/b/testdata/t.go"] = g.file(5)
+	tree["pkg/b/testdata_loader.go"] = g.file(7)
+	tree["vendorutil/u.go"] = g.file(6)
 	all := func(string) bool { return true }
 	const t0 = 1700000000
 	topos := []string{"linear", "linear", "linear-same-second", "pr-feature-older", "pr-feature-older", "pr-feature-newer", "pr-same-second", "pr-forked-after-old", "diverged"}
